@@ -54,5 +54,4 @@ PROP = {
             "precedence:decided_by_dhcp_mac", "precedence:decided_by_none",
         ],
     },
-    "claimed": False,
 }
